@@ -255,7 +255,7 @@ func (s *Store) finishSnapshotAsync(snap *jobSnapshot) (uri string, err error) {
 	s.log.Info("store wrote checkpoint", "uri", uri)
 
 	if snap.isSavepoint {
-		spURI, err := CreateSavepointArtifact(s.fileStore, s.savepointsPath, uri, snap)
+		spURI, err := CreateSavepointArtifact(s.fileStore, s.savepointsPath, data, snap)
 		if err != nil {
 			return "", err
 		}
